@@ -4,6 +4,7 @@ import (
 	"bytes"
 	"fmt"
 	"strings"
+	"time"
 
 	"verif/harness/internal/hx"
 )
@@ -829,6 +830,22 @@ func lastPairVectors() []vector {
 			{"set", "vns:t:" + x, "v"}, {"setex", "vns:t:" + x, "100000", "v"}, {"del", "vns:t:" + x},
 		} {
 			out = append(out, vector{args: bb(t), base: t[0], mut: "lastpair-det"})
+		}
+	}
+	// TTL boundaries of the batchable writes with an expiry (SETEX, SET .. EX) and of the EXPIRE family: 0, +-1, the
+	// values around the largest expiry second the store accepts (MaxUint32-1 minus now)
+	nowSec := time.Now().Unix()
+	var ttls []string
+	for _, d := range []int64{0, 1, -1, 2, 4294967293, 4294967294, 4294967295, 4294967296, 4294967294 - nowSec - 1, 4294967294 - nowSec, 4294967294 - nowSec + 1, 4294967294 - nowSec - 5} {
+		ttls = append(ttls, fmt.Sprint(d))
+	}
+	for i, d := range ttls {
+		k := fmt.Sprintf("vns:t:ttl%d", i)
+		for _, t := range [][]string{
+			{"setex", k, d, "v"}, {"set", k, "v", "ex", d}, {"set", k, "v", "EX", d, "nx"}, {"setifeq", "vns:t:k1", "v1", "v2", "ex", d},
+			{"expire", "vns:t:k1", d}, {"hexpire", "vns:t:h1", d}, {"lexpire", "vns:t:l1", d}, {"sexpire", "vns:t:s1", d}, {"zexpire", "vns:t:z1", d}, {"bexpire", "vns:t:b1", d},
+		} {
+			out = append(out, vector{args: bb(t), base: t[0], mut: "ttl-boundary"})
 		}
 	}
 	return out
